@@ -9,6 +9,7 @@ import (
 	"sort"
 	"strconv"
 	"strings"
+	"sync"
 	"sync/atomic"
 	"testing/synctest"
 	"time"
@@ -82,6 +83,10 @@ type Sim struct {
 	EnginePanic     string // first engine panic caught in a task
 	HarnessErr      string // harness trouble (exit 2)
 
+	// mu guards every field below and the logs/statistics above: hooks are
+	// called from many goroutines, and even with GOMAXPROCS=1 a goroutine can be
+	// descheduled inside a map write or an append (allocation, GC assist).
+	mu      sync.Mutex
 	seq     uint64
 	rootGID uint64
 	tasks   []*Task
@@ -137,29 +142,44 @@ func curGID() uint64 {
 func (s *Sim) Now() time.Duration { return time.Since(s.Start) }
 
 func (s *Sim) Event(kind string, a ...string) {
+	now := int64(s.Now())
+	s.mu.Lock()
 	s.seq++
-	s.Events = append(s.Events, Event{Seq: s.seq, T: int64(s.Now()), Kind: kind, A: a})
+	s.Events = append(s.Events, Event{Seq: s.seq, T: now, Kind: kind, A: a})
+	s.mu.Unlock()
 }
 
-func (s *Sim) Seq() uint64 { return s.seq }
+func (s *Sim) Seq() uint64 {
+	s.mu.Lock()
+	defer s.mu.Unlock()
+	return s.seq
+}
 
 func (s *Sim) Violate(rule, sig, format string, a ...any) {
 	d := fmt.Sprintf(format, a...)
+	s.mu.Lock()
 	s.Viol = append(s.Viol, Violation{Rule: rule, Sig: sig, Detail: d})
+	s.mu.Unlock()
 	s.Event("VIOLATION", rule, sig, d)
 }
 
-func (s *Sim) Rule(rule string)      { s.Stats.Rules[rule]++ }
-func (s *Sim) Probe(name string)     { s.Stats.Probes[name]++ }
-func (s *Sim) FaultFired(k string)   { s.Stats.Faults[k]++ }
-func (s *Sim) Nontrivial()           { s.Stats.Nontrivial = true }
-func (s *Sim) Failed() bool          { return len(s.Viol) > 0 || s.EnginePanic != "" || s.HarnessErr != "" }
-func (s *Sim) State(abstract string) { s.states[abstract] = true }
+func (s *Sim) Rule(rule string)    { s.mu.Lock(); s.Stats.Rules[rule]++; s.mu.Unlock() }
+func (s *Sim) Probe(name string)   { s.mu.Lock(); s.Stats.Probes[name]++; s.mu.Unlock() }
+func (s *Sim) FaultFired(k string) { s.mu.Lock(); s.Stats.Faults[k]++; s.mu.Unlock() }
+func (s *Sim) Nontrivial()         { s.mu.Lock(); s.Stats.Nontrivial = true; s.mu.Unlock() }
+func (s *Sim) Failed() bool {
+	s.mu.Lock()
+	defer s.mu.Unlock()
+	return len(s.Viol) > 0 || s.EnginePanic != "" || s.HarnessErr != ""
+}
+func (s *Sim) State(abstract string) { s.mu.Lock(); s.states[abstract] = true; s.mu.Unlock() }
 
 // MixSig folds scenario-level choices into the run signature.
 func (s *Sim) MixSig(parts ...string) { s.mixSig(parts...) }
 
 func (s *Sim) mixSig(parts ...string) {
+	s.mu.Lock()
+	defer s.mu.Unlock()
 	for _, p := range parts {
 		for i := 0; i < len(p); i++ {
 			s.sigH ^= uint64(p[i])
@@ -172,15 +192,23 @@ func (s *Sim) mixSig(parts ...string) {
 
 // ---- hooks -----------------------------------------------------------------
 
-func (s *Sim) hookAcquire() { s.held[curGID()]++ }
+func (s *Sim) hookAcquire() {
+	gid := curGID()
+	s.mu.Lock()
+	s.held[gid]++
+	s.mu.Unlock()
+}
 
 func (s *Sim) hookRelease(site string) {
 	gid := curGID()
+	s.mu.Lock()
 	if n := s.held[gid]; n > 1 {
 		s.held[gid] = n - 1
+		s.mu.Unlock()
 		return
 	}
 	delete(s.held, gid)
+	s.mu.Unlock()
 	s.yieldAt(gid, "unlock", []string{site})
 }
 
@@ -190,31 +218,41 @@ func (s *Sim) hookYield(point string, args []string) { s.yieldAt(curGID(), point
 // that holds an instrumented lock is never parked (another task blocking on
 // that mutex would not be durably blocked and the bubble could not settle).
 func (s *Sim) yieldAt(gid uint64, point string, args []string) {
+	s.mu.Lock()
 	if gid == s.rootGID || s.held[gid] > 0 {
+		s.mu.Unlock()
 		return
 	}
 	t := s.byGID[gid]
+	s.mu.Unlock()
 	harness := t != nil && t.Harness
 	if s.YieldOn == nil || !s.YieldOn(point, args, harness) {
 		return
 	}
 	if t == nil {
+		s.mu.Lock()
 		s.bgCount[point]++
 		t = &Task{ID: len(s.tasks), Name: fmt.Sprintf("bg:%s#%d", point, s.bgCount[point]),
 			gid: gid, resume: make(chan struct{})}
 		s.tasks = append(s.tasks, t)
 		s.byGID[gid] = t
+		s.mu.Unlock()
 	}
 	s.park(t, point, args)
 }
 
 func (s *Sim) park(t *Task, point string, args []string) {
+	now := s.Now()
+	s.mu.Lock()
 	t.Point, t.Args = point, args
 	t.state = stParked
-	t.ParkedAt = s.Now()
+	t.ParkedAt = now
 	s.Stats.Yields[point]++
+	s.mu.Unlock()
 	<-t.resume
+	s.mu.Lock()
 	t.state = stRunning
+	s.mu.Unlock()
 }
 
 func (s *Sim) hookFault(point string, args []string) error {
@@ -228,7 +266,7 @@ func (s *Sim) hookFault(point string, args []string) error {
 
 func (s *Sim) hookEvent(kind string, args []string) {
 	if strings.HasPrefix(kind, "probe.") {
-		s.Stats.Probes[kind[6:]]++
+		s.Probe(kind[6:])
 	}
 	if s.LogEngineEvents {
 		s.Event(kind, args...)
@@ -250,28 +288,38 @@ func (s *Sim) hookOrder(point string, names []string) []string {
 // Spawn starts fn as a harness task; it is parked at "task.start" until the
 // scheduler resumes it. Engine panics inside fn are caught and recorded.
 func (s *Sim) Spawn(name string, fn func()) *Task {
+	s.mu.Lock()
 	t := &Task{ID: len(s.tasks), Name: name, Harness: true, resume: make(chan struct{})}
 	s.tasks = append(s.tasks, t)
+	s.mu.Unlock()
 	go func() {
+		s.mu.Lock()
 		t.gid = curGID()
 		s.byGID[t.gid] = t
+		s.mu.Unlock()
 		defer func() {
 			if r := recover(); r != nil {
 				st := string(debug.Stack())
 				t.Panic = fmt.Sprint(r)
 				frame := firstFrame(st)
 				if strings.Contains(frame, "lunar/") {
+					s.mu.Lock()
 					if s.EnginePanic == "" {
 						s.EnginePanic = frame + ": " + t.Panic
 					}
+					s.mu.Unlock()
 					s.Event("engine.panic", name, frame, t.Panic)
 				} else {
+					s.mu.Lock()
 					if s.HarnessErr == "" {
 						s.HarnessErr = "harness panic in task " + name + ": " + t.Panic + "\n" + st
 					}
+					s.mu.Unlock()
 				}
 			}
+			s.mu.Lock()
 			t.state = stDone
+			s.mu.Unlock()
 		}()
 		s.park(t, "task.start", nil)
 		fn()
@@ -311,6 +359,8 @@ func (s *Sim) Tasks() []*Task { return s.tasks }
 
 // ParkedTasks lists parked tasks in creation order.
 func (s *Sim) ParkedTasks() []*Task {
+	s.mu.Lock()
+	defer s.mu.Unlock()
 	var out []*Task
 	for _, t := range s.tasks {
 		if t.state == stParked {
